@@ -232,5 +232,65 @@ func TestC01(t *testing.T) {
 			}
 		}
 	}
+	// ---- the real binary with every spelling of the root (abs, relative, trailing slash, default '.') ----
+	if binPath() != "" {
+		binPaths := c01Paths(2)
+		if r.Thorough() {
+			binPaths = c01Paths(3)
+		}
+		type spell struct{ name, arg, cwd string }
+		sps := []spell{{"absolute", A.w.Root, A.w.Dir}, {"relative", "root", filepath.Join(A.w.Dir, "srv")}, {"trailing-slash", A.w.Root + "/", A.w.Dir}, {"default-dot", "", A.w.Root}, {"dot-slash", "./", A.w.Root}}
+		bi := 0
+		for _, sp := range sps {
+			for _, allow := range []bool{false, true} {
+				bi++
+				br, err := startReplayer(sp.arg, sp.cwd, binLogDir("C01"), allow)
+				if err != nil {
+					r.HarnessError("cannot start the real binary (root spelling " + sp.name + "): " + err.Error())
+					return
+				}
+				for pi, p := range binPaths {
+					if !r.Mine(pi*16 + bi) {
+						continue
+					}
+					if len(p) > 2000 {
+						continue
+					}
+					var reqs []Req
+					for _, op := range ops {
+						reqs = append(reqs, mkReq(op, p))
+					}
+					// in-process run gives the expected response lengths; the model judges the binary's answers
+					mI := newModel(A.w.Root, allow)
+					resI := runSession(t, SrvOpts{Root: A.w.Root, AllowWrite: allow}, mI, reqs, Delivery{})
+					if allow {
+						A.resetIfChanged()
+					}
+					if resI.Why != "" {
+						continue // already reported (or tolerated as failure form) by the in-process part
+					}
+					why, sig := br.replay(newModel(A.w.Root, allow), reqs, lensOf(resI.Raw), resI.Closed)
+					r.Trace(1)
+					r.Transition(int64(len(reqs)))
+					key := sprintf("bin|%s|%v|%q", sp.name, allow, p)
+					r.State(key)
+					if why != "" {
+						r.Violation("C01:"+sig+":root-"+sp.name, sprintf("real binary started with root spelling %s (allow-write=%v), path %q: %s", sp.name, allow, p, why), map[string]any{"root_spelling": sp.name, "path": p, "allow_write": allow})
+					}
+					if d := diffSnap(outsideSnap, snapshotTree(A.w.Dir, A.w.Root)); d != "[]" {
+						r.Violation("C01:outside-changed:root-"+sp.name, sprintf("real binary (root spelling %s, allow-write=%v), path %q changed objects outside the root: %s", sp.name, allow, p, d), map[string]any{"root_spelling": sp.name, "path": p})
+						br.Stop()
+						r.NotExhaustive("binary part of C01 stopped after the outside of the root was changed")
+						return
+					}
+					if allow {
+						A.resetIfChanged()
+					}
+				}
+				br.Stop()
+			}
+		}
+		os.RemoveAll(binLogDir("C01"))
+	}
 	r.Assume("operator-placed symlinks are excluded by the property; Windows path forms are not explored; the twin world differs only in what exists outside the root")
 }
